@@ -17,7 +17,6 @@ import (
 	"fmt"
 	"io"
 	"math/rand"
-	"net"
 	"net/http"
 	"strings"
 	"sync"
@@ -42,7 +41,13 @@ type c14qsrv struct {
 
 func c14newQsrv(fault string) (*c14qsrv, error) {
 	tlsCfg := &tls.Config{Certificates: []tls.Certificate{c14tlsCert()}, NextProtos: []string{"doq"}}
-	ln, err := quic.ListenAddr("127.0.0.1:0", tlsCfg, &quic.Config{MaxIdleTimeout: 30 * time.Second})
+	var ln *quic.Listener
+	var err error
+	for i := 0; i < 200; i++ {
+		if ln, err = quic.ListenAddr(fmt.Sprintf("127.0.0.1:%d", c14nextPort()), tlsCfg, &quic.Config{MaxIdleTimeout: 30 * time.Second}); err == nil {
+			break
+		}
+	}
 	if err != nil {
 		return nil, err
 	}
@@ -155,10 +160,7 @@ func c14doqOnce(m map[string]string) c14outcome {
 	}
 	defer up.Close()
 	if fault == "pooled" || fault == "idleclose" || fault == "connkill" {
-		ctx, cancel := context.WithTimeout(context.Background(), c14SetupWait)
-		ok := c14do(up, ctx, c14query("plain", 0))
-		cancel()
-		if !ok {
+		if !c14setupExchange(up, c14query("plain", 0)) {
 			out.setupFailed = "first-exchange"
 			return out
 		}
@@ -171,11 +173,7 @@ func c14doqOnce(m map[string]string) c14outcome {
 	srv.script, srv.vi = c14serverScript(script), 0
 	a0 := srv.accepts
 	srv.mu.Unlock()
-	ctx, cancel := context.WithTimeout(context.Background(), time.Duration(dl)*time.Millisecond)
-	t0 := time.Now()
-	out.ok = c14do(up, ctx, c14query("victim", 0))
-	out.el = time.Since(t0)
-	cancel()
+	out.ok, out.el = c14timed(up, dl, c14query("victim", 0))
 	srv.mu.Lock()
 	out.dials, out.att = srv.accepts-a0, srv.vq
 	srv.mu.Unlock()
@@ -187,11 +185,7 @@ func c14h3Once(m map[string]string) c14outcome {
 	script := strings.Split(m["script"], ",")
 	dl := atoi(m["dl"])
 	out := c14outcome{woke: true}
-	pc, err := net.ListenUDP("udp", &net.UDPAddr{IP: net.IPv4(127, 0, 0, 1)})
-	if err != nil {
-		out.setupFailed = "listen"
-		return out
-	}
+	pc := c14listenUDP()
 	addr := pc.LocalAddr().String()
 	sv := c14serverScript(script)
 	stop := make(chan struct{})
@@ -252,19 +246,12 @@ func c14h3Once(m map[string]string) c14outcome {
 		pc.Close()
 	}()
 	if fault == "pooled" {
-		ctx, cancel := context.WithTimeout(context.Background(), c14SetupWait)
-		ok := c14do(up, ctx, c14query("plain", 0))
-		cancel()
-		if !ok {
+		if !c14setupExchange(up, c14query("plain", 0)) {
 			out.setupFailed = "first-exchange"
 			return out
 		}
 	}
-	ctx, cancel := context.WithTimeout(context.Background(), time.Duration(dl)*time.Millisecond)
-	t0 := time.Now()
-	out.ok = c14do(up, ctx, c14query("victim", 0))
-	out.el = time.Since(t0)
-	cancel()
+	out.ok, out.el = c14timed(up, dl, c14query("victim", 0))
 	return out
 }
 
@@ -326,4 +313,3 @@ func c14quicCases(r *rand.Rand, thorough bool) []c14case {
 	return l
 }
 
-var _ = fmt.Sprint
